@@ -31,6 +31,8 @@ ASSUMPTIONS = ['only "tainted never runs / is never consumed" is asserted, never
 FSLOTS = ['n1', 'n2', 'g1']          # function slots (g1 lives in grp)
 SSLOTS = ['e1', 'e2']                # scalar-dynamic slots
 DSLOTS = ['d1', 'd2', 'gd']          # data slots (gd lives in grp)
+RSLOTS = ['rc1']                     # lazily included files (!rec), each file holds one !call
+_TMP = {'dir': None}
 XTARGETS = ['d1', 'd2', 'grp.gd', 'al']
 EVALNAMES = ['d1', 'd2', 'al', 'grp.gd']
 
@@ -105,6 +107,18 @@ def _stage(draw, idx, ctr, kinds):
         elif c == 3:
             w[s] = ['import', ctr['id']]
         elif c == 4:
+            ctr['m'] += 1
+            w[s] = ['scalar', ctr['m']]
+        else:
+            w[s] = ['del']
+    for s in RSLOTS:
+        if draw(st.integers(0, 5)) != 0:
+            continue
+        c = draw(st.integers(0, 4))
+        if c <= 2:
+            ctr['id'] += 1
+            w[s] = ['rec', ctr['id'], draw(st.integers(0, 5)) == 0]     # [.., id of the call inside the file, !unsafe on the list element naming the file]
+        elif c == 3:
             ctr['m'] += 1
             w[s] = ['scalar', ctr['m']]
         else:
@@ -195,6 +209,15 @@ def _write_node(w, tagged):
         n = tdoc.mp([], flow=True) if w[1] == '{}' else {'t': 'empty', 'tag': '!required'} if w[1] == 'required' else tdoc.sc(7)
     elif k == 'del':
         return tdoc.empty(**{'del': True})
+    elif k == 'rec':
+        elem = tdoc.sc(os.path.join(_TMP['dir'] or '/nonexistent', f'rec_{w[1]}.yaml'), q='double')
+        if w[2]:
+            elem['unsafe'] = True
+        n = tdoc.sq([elem], tag='!rec')
+        if tagged:
+            # !rec has no metadata form: the tag on the node itself cannot be combined with !unsafe
+            return n
+        return n
     elif k == 'eval':
         n = tdoc.raw('note(' + ', '.join([str(w[1])] + w[2]) + ')', '!eval', q='dq')
     elif k == 'fstr':
@@ -248,7 +271,7 @@ def _effective_tag(w, tagged):
     """Whether the !unsafe tag could actually be written on this node (see _write_node)."""
     if not tagged:
         return False
-    return w[0] not in ('fstr', 'import', 'del')
+    return w[0] not in ('fstr', 'import', 'del', 'rec')
 
 
 def provenance(case):
@@ -279,6 +302,9 @@ def provenance(case):
                     marker_taint[m] = t
             elif k in ('name', 'eval', 'fstr', 'import'):
                 id_taint[w[1]] = t
+            elif k == 'rec':
+                # the call lives in a file read lazily on behalf of this node: tainted if the node or the element naming the file is
+                id_taint[w[1]] = t or w[2]
             elif k in ('scalar', 'lit'):
                 marker_taint[w[1]] = t
             elif k == 'map':
@@ -336,8 +362,14 @@ def run_case(case):
     stages = case['stages']
     id_taint, marker_taint = provenance(case)
     tmp = tempfile.mkdtemp(prefix='vf-c07-')
+    _TMP['dir'] = tmp
     try:
         texts = []
+        for st_ in stages:
+            for s_, w_ in st_['writes'].items():
+                if w_[0] == 'rec':
+                    with open(os.path.join(tmp, f'rec_{w_[1]}.yaml'), 'w') as f:
+                        f.write(f'---\ninner: !call:vfrec.call_{w_[1]} {{}}\n')
         b = Builder()
         for i, st_ in enumerate(stages):
             text = tdoc.render(stage_doc(st_))
@@ -367,6 +399,7 @@ def run_case(case):
         log = list(vfrec.LOG)
     finally:
         shutil.rmtree(tmp, ignore_errors=True)
+        _TMP['dir'] = None
     labels = {'stages=%d' % len(stages), 'route=' + ('EvalContext.evaluate' if case.get('lowlevel') else 'Config')}
     any_taint = any(id_taint.values()) or any(marker_taint.values())
     if any_taint:
@@ -375,6 +408,8 @@ def run_case(case):
         labels.add('unsafe-source')
     if any(s['via'] == 'include' for s in stages):
         labels.add('via-include')
+    if any(w[0] == 'rec' for s in stages for w in s['writes'].values()):
+        labels.add('lazy-include(!rec)')
     touched = {}
     for s_ in stages:
         for k in s_['writes']:
